@@ -408,6 +408,10 @@ inline constexpr size_t kSlotBytes = 24576;
 inline constexpr int kSlots        = 8;
 alignas(64) inline unsigned char g_arena[kSlots][kSlotBytes];
 inline size_t g_slotObj[kSlots] = {}; // object bytes currently guarded in the slot (0 = none)
+// Bytes in front of the object: the guard plus, for minimally aligned placement, alignof(object) more - the object then
+// sits at an address that is a multiple of its own alignment but of nothing larger (the arena itself is 64-byte aligned,
+// which would hide a type whose alignment requirement is understated)
+inline size_t g_slotFront[kSlots] = {kGuard, kGuard, kGuard, kGuard, kGuard, kGuard, kGuard, kGuard};
 
 inline auto garbage_byte(Config const& cfg, uint64_t& st) -> unsigned char
 {
@@ -421,7 +425,7 @@ inline auto garbage_byte(Config const& cfg, uint64_t& st) -> unsigned char
 
 inline auto round8(size_t n) -> size_t { return (n + 7U) & ~size_t{7}; }
 
-inline auto slot_obj(int slot) -> unsigned char* { return g_arena[slot] + kGuard; }
+inline auto slot_obj(int slot) -> unsigned char* { return g_arena[slot] + g_slotFront[slot]; }
 
 inline auto arena_rel(void const* p) -> long
 {
@@ -435,9 +439,9 @@ inline auto arena_rel(void const* p) -> long
 inline auto in_arena(void const* p) -> bool { return arena_rel(p) >= 0; }
 
 // Fill the slot with garbage, lay down canaries, poison guards. Returns the object address.
-inline auto arena_prepare(int slot, size_t objBytes, Config const& cfg, uint64_t salt) -> void*
+inline auto arena_prepare(int slot, size_t objBytes, Config const& cfg, uint64_t salt, size_t align = 0) -> void*
 {
-    if (objBytes + 2 * kGuard + 8 > kSlotBytes) {
+    if (objBytes + 3 * kGuard + 8 > kSlotBytes) {
         std::fprintf(stderr, "HARNESS-ERROR arena slot too small for %zu bytes\n", objBytes);
         std::_Exit(3);
     }
@@ -445,22 +449,26 @@ inline auto arena_prepare(int slot, size_t objBytes, Config const& cfg, uint64_t
 #if SIM_ASAN
     __asan_unpoison_memory_region(base, kSlotBytes);
 #endif
-    uint64_t st       = cfg.gseed ^ mix64(salt + static_cast<uint64_t>(slot));
-    size_t const body = round8(objBytes);
+    // bit 6 of the creation mask: this run places its objects at minimally aligned addresses
+    size_t const extra = (align != 0 && align < kGuard && ((cfg.create >> 6) & 1U) != 0) ? align : 0;
+    size_t const front = kGuard + extra;
+    g_slotFront[slot]  = front;
+    uint64_t st        = cfg.gseed ^ mix64(salt + static_cast<uint64_t>(slot));
+    size_t const body  = round8(objBytes);
     for (size_t i = 0; i < body; ++i) {
-        base[kGuard + i] = garbage_byte(cfg, st);
+        base[front + i] = garbage_byte(cfg, st);
     }
-    std::memset(base, 0xC7, kGuard);
-    std::memset(base + kGuard + body, 0xC7, kGuard);
+    std::memset(base, 0xC7, front);
+    std::memset(base + front + body, 0xC7, kGuard);
     g_slotObj[slot] = objBytes;
 #if SIM_ASAN
-    __asan_poison_memory_region(base, kGuard);
-    __asan_poison_memory_region(base + kGuard + body, kGuard);
+    __asan_poison_memory_region(base, front);
+    __asan_poison_memory_region(base + front + body, kGuard);
 #endif
 #if defined(SIM_VALGRIND)
-    VALGRIND_MAKE_MEM_UNDEFINED(base + kGuard, body);
+    VALGRIND_MAKE_MEM_UNDEFINED(base + front, body);
 #endif
-    return base + kGuard;
+    return base + front;
 }
 
 inline auto arena_guards_ok(int slot) -> bool
@@ -469,18 +477,22 @@ inline auto arena_guards_ok(int slot) -> bool
         return true;
     }
     unsigned char* base = g_arena[slot];
+    size_t const front  = g_slotFront[slot];
     size_t const body   = round8(g_slotObj[slot]);
 #if SIM_ASAN
-    __asan_unpoison_memory_region(base, kGuard);
-    __asan_unpoison_memory_region(base + kGuard + body, kGuard);
+    __asan_unpoison_memory_region(base, front);
+    __asan_unpoison_memory_region(base + front + body, kGuard);
 #endif
     bool ok = true;
+    for (size_t i = 0; i < front; ++i) {
+        ok = ok && base[i] == 0xC7;
+    }
     for (size_t i = 0; i < kGuard; ++i) {
-        ok = ok && base[i] == 0xC7 && base[kGuard + body + i] == 0xC7;
+        ok = ok && base[front + body + i] == 0xC7;
     }
 #if SIM_ASAN
-    __asan_poison_memory_region(base, kGuard);
-    __asan_poison_memory_region(base + kGuard + body, kGuard);
+    __asan_poison_memory_region(base, front);
+    __asan_poison_memory_region(base + front + body, kGuard);
 #endif
     return ok;
 }
@@ -491,16 +503,17 @@ inline void arena_guards_repair(int slot)
         return;
     }
     unsigned char* base = g_arena[slot];
+    size_t const front  = g_slotFront[slot];
     size_t const body   = round8(g_slotObj[slot]);
 #if SIM_ASAN
-    __asan_unpoison_memory_region(base, kGuard);
-    __asan_unpoison_memory_region(base + kGuard + body, kGuard);
+    __asan_unpoison_memory_region(base, front);
+    __asan_unpoison_memory_region(base + front + body, kGuard);
 #endif
-    std::memset(base, 0xC7, kGuard);
-    std::memset(base + kGuard + body, 0xC7, kGuard);
+    std::memset(base, 0xC7, front);
+    std::memset(base + front + body, 0xC7, kGuard);
 #if SIM_ASAN
-    __asan_poison_memory_region(base, kGuard);
-    __asan_poison_memory_region(base + kGuard + body, kGuard);
+    __asan_poison_memory_region(base, front);
+    __asan_poison_memory_region(base + front + body, kGuard);
 #endif
 }
 
@@ -511,12 +524,13 @@ inline void arena_retire(int slot)
         return;
     }
     unsigned char* base = g_arena[slot];
+    size_t const front  = g_slotFront[slot];
 #if SIM_ASAN
     __asan_unpoison_memory_region(base, kSlotBytes);
 #endif
-    std::memset(base + kGuard, 0xDD, round8(g_slotObj[slot]));
+    std::memset(base + front, 0xDD, round8(g_slotObj[slot]));
 #if SIM_ASAN
-    __asan_poison_memory_region(base, kGuard + round8(g_slotObj[slot]) + kGuard);
+    __asan_poison_memory_region(base, front + round8(g_slotObj[slot]) + kGuard);
 #endif
     g_slotObj[slot] = 0;
 }
@@ -528,6 +542,9 @@ inline void arena_reset_all()
 #endif
     for (auto& s : g_slotObj) {
         s = 0;
+    }
+    for (auto& f : g_slotFront) {
+        f = kGuard;
     }
 }
 
